@@ -43,8 +43,11 @@ alphabet of these histories (DESIGN C10/N): only declared names and currently
 added instance traits are ever read, assigned or listened to.  Two further
 strata run after them: `_c10_wild` (the isolation and default laws on names
 resolved through wildcard declarations; the class-level caching itself is not
-judged) and `_c10_failhook` (a hook fails while a default is being
-materialised: computed once / same object all the same).
+judged), `_c10_failhook` (a hook fails while a default is being
+materialised: computed once / same object all the same) and `_c10_sidefx`
+(the code that computes a default assigns the trait itself or its siblings,
+reads other defaults, registers listeners or resets traits of the same
+object: first read == later reads, computed once, silent, per instance).
 See DESIGN.md section 4 / C10.
 """
 import copy
@@ -108,7 +111,25 @@ META = {
              "assigned then del, assigned then reset_traits} x sibling with / without the hook; 2-4 reads with the "
              "hook armed, sibling reads in between, reads after disarming: default method / factory at most once "
              "per period, every returning read returns one object (the declared default, the one post_setattr was "
-             "given), sibling untouched."),
+             "given), sibling untouched.  "
+             "Stratum 'sidefx' (sidefx_* counters, ENUMERATED 3429 cases, x10 with other draws in the thorough tier): "
+             "the computation of the default of x has a side effect on the same object, once per never-assigned "
+             "period: 10 default kinds (_x_default on List / Dict / Set / Any / Int / Instance / a trait type with "
+             "post_setattr, Any(factory=..), a DefaultValue.callable default, a static List default whose item "
+             "validator carries the effect) x 20 effects {none; assigns x itself (equal / other value / then returns "
+             "the stored value); a fill-several-traits helper; assigns sibling y whose static / on_trait_change / "
+             "observe handler assigns x; assigns siblings only; y's handler reads x; reads a sibling whose default "
+             "reads a third (chain) / reads x (mutually recursive defaults); registers on_trait_change('x') / "
+             "observe('x') / 'x_items' / 'x.items' / an all-traits listener; reset_traits(['x']) or del while unassigned; "
+             "assigns then deletes x; assigns y then reset_traits()} x listener already on x {none, otc, observe, "
+             "static, x_items, x.items, all-traits} x period {never assigned, assigned then del, assigned then "
+             "reset_traits}; inner assignments by setattr / trait_set / trait_setq; a sibling instance takes the same "
+             "turn (armed or not, hooked or not), a third one is read at the end: every returning read of one period "
+             "yields one object (also after the sibling's turn), it is what the default computation returned, the "
+             "computation ran at most once plus once per operation of the effect code that itself needs the value of "
+             "the unassigned x, handlers of x are reached at most once per assignment / deletion of x made by the "
+             "effect code, the object announced by the del / reset notification and the one last given to "
+             "post_setattr is the one reads return, instances do not reach each other."),
     "phases": [{"name": "main", "flavour": "P", "shards": 16}],
     "gates": {
         "quick": {"evaluations": 100000, "steps": 15000, "sibling_inspections": 30000,
@@ -134,7 +155,14 @@ META = {
                   "wild_assignments_beside_listening_sibling": 3200, "wild_handler_events_on_target": 20000,
                   "wild_own_mutations": 2000, "wild_add_trait_ops": 800,
                   "failhook_cases": 150, "failhook_period_checks": 300, "failhook_first_reads_raised": 35,
-                  "failhook_resets_raised": 90, "failhook_reads_returned": 1400},
+                  "failhook_resets_raised": 90, "failhook_reads_returned": 1400,
+                  "sidefx_cases": 1700, "sidefx_period_checks": 5000, "sidefx_reads_returned": 15000,
+                  "sidefx_effects_fired": 2500, "sidefx_effects_in_first_read": 800,
+                  "sidefx_effects_in_reset_or_registration": 900, "sidefx_self_assignments": 1000,
+                  "sidefx_sibling_writebacks": 400, "sidefx_reentrant_reads": 250,
+                  "sidefx_chained_default_reads": 130, "sidefx_listener_registrations_in_default": 550,
+                  "sidefx_resets_in_default": 400, "sidefx_reset_identity_checks": 1000,
+                  "sidefx_post_setattr_identity_checks": 400, "sidefx_cases_effect_with_listener_on_x": 1200},
         "thorough": {"evaluations": 2000000, "steps": 300000, "sibling_inspections": 600000,
                      "fresh_instances": 800000, "class_inspections": 800000, "first_reads": 16000000,
                      "pool_first_reads": 1000000, "first_reads_static": 10000000,
@@ -160,7 +188,14 @@ META = {
                      "wild_assignments_beside_listening_sibling": 57000, "wild_handler_events_on_target": 360000,
                      "wild_own_mutations": 36000, "wild_add_trait_ops": 14000,
                      "failhook_cases": 1800, "failhook_period_checks": 3600, "failhook_first_reads_raised": 420,
-                     "failhook_resets_raised": 1000, "failhook_reads_returned": 17000},
+                     "failhook_resets_raised": 1000, "failhook_reads_returned": 17000,
+                     "sidefx_cases": 17000, "sidefx_period_checks": 50000, "sidefx_reads_returned": 150000,
+                     "sidefx_effects_fired": 25000, "sidefx_effects_in_first_read": 8000,
+                     "sidefx_effects_in_reset_or_registration": 9000, "sidefx_self_assignments": 10000,
+                     "sidefx_sibling_writebacks": 4000, "sidefx_reentrant_reads": 2500,
+                     "sidefx_chained_default_reads": 1300, "sidefx_listener_registrations_in_default": 5500,
+                     "sidefx_resets_in_default": 4000, "sidefx_reset_identity_checks": 10000,
+                     "sidefx_post_setattr_identity_checks": 4000, "sidefx_cases_effect_with_listener_on_x": 12000},
     },
     "assumptions": [
         "the declared default of every trait of the harness classes is the literal written in SPEC "
@@ -172,6 +207,10 @@ META = {
         "but that caching (and whether trait_added fires)",
         "whether a read raises while a failing hook is attached is not judged (stratum 'failhook'): only how "
         "often the default is computed and which object returning reads yield",
+        "stratum 'sidefx': an operation of the default-computing code that itself needs the value of the still "
+        "unassigned trait (a re-entrant read, an assignment / deletion while the trait has listeners or a "
+        "post_setattr hook) may compute the default once more; what such code leaves in the sibling traits is "
+        "not judged",
     ],
 }
 
@@ -1968,3 +2007,6 @@ def run(ctx):
     # stratum "failhook": a hook fails while a default is being materialised, then the reads go on
     from vf.monitors import _c10_failhook
     _c10_failhook.run(ctx, lambda: HUB.excs)
+    # stratum "sidefx": the code computing a default assigns / reads / listens to / resets the same object
+    from vf.monitors import _c10_sidefx
+    _c10_sidefx.run(ctx, lambda: HUB.excs)
